@@ -261,6 +261,31 @@ SYM_UNARY(log2, Log2)
 SYM_UNARY(log10, Log10)
 #undef SYM_UNARY
 
+// The C names with a precision suffix (`cbrtf`, `sqrtl`, ...): the argument is first converted to that
+// precision, as the C prototypes do with a native argument.
+#define SYM_SUFFIXED(FN, BASE, F)                                                                  \
+  template <int A>                                                                                 \
+  inline S<F> FN(const S<A>& x) {                                                                  \
+    return BASE(Widen<F>(x));                                                                      \
+  }
+SYM_SUFFIXED(sqrtf, sqrt, 32)
+SYM_SUFFIXED(sqrtl, sqrt, 80)
+SYM_SUFFIXED(fabsf, fabs, 32)
+SYM_SUFFIXED(fabsl, fabs, 80)
+SYM_SUFFIXED(acosf, acos, 32)
+SYM_SUFFIXED(acosl, acos, 80)
+SYM_SUFFIXED(cbrtf, cbrt, 32)
+SYM_SUFFIXED(cbrtl, cbrt, 80)
+SYM_SUFFIXED(expf, exp, 32)
+SYM_SUFFIXED(expl, exp, 80)
+SYM_SUFFIXED(logf, log, 32)
+SYM_SUFFIXED(logl, log, 80)
+SYM_SUFFIXED(log2f, log2, 32)
+SYM_SUFFIXED(log2l, log2, 80)
+SYM_SUFFIXED(log10f, log10, 32)
+SYM_SUFFIXED(log10l, log10, 80)
+#undef SYM_SUFFIXED
+
 // std::pow(floating, floating): result in the wider format.
 template <int A, int B>
 inline S<MaxF(A, B)> pow(const S<A>& x, const S<B>& y) {
